@@ -92,7 +92,7 @@ def main():
     from vlib import chrun
     from vlib.ch_c19 import ch_conditions
     ex0 = ThreadPoolExecutor(max_workers=1)
-    fut = ex0.submit(chrun.run_conditions, ch_conditions(a.tier), "", 4)
+    fut = ex0.submit(chrun.run_conditions, ch_conditions(a.tier), "", 8)
     # scratch copy of the package with another tensor-name configuration
     scratch = tempfile.mkdtemp(prefix="verif-c19-")
     try:
